@@ -177,9 +177,25 @@ func (x *Exec) mapstructureDecode(cfg PtrV, in IfaceV) Val {
 			return IfaceV{}
 		}
 		if isFloat(tt) {
-			if v, ok := in.V.(OpaqueV); ok {
+			switch v := in.V.(type) {
+			case OpaqueV:
 				dst.V = v
 				return IfaceV{}
+			case StrV:
+				if s, ok := v.concrete(); ok {
+					fv, err := strconv.ParseFloat(s, 64)
+					if err != nil {
+						return x.opaqueErr()
+					}
+					dst.V = OpaqueV{Kind: "float", Key: "f:" + strconv.FormatFloat(fv, 'g', -1, 64), F: &fv}
+					return IfaceV{}
+				}
+			case BV:
+				if v.Con {
+					fv := float64(sext(v))
+					dst.V = OpaqueV{Kind: "float", Key: "f:" + strconv.FormatFloat(fv, 'g', -1, 64), F: &fv}
+					return IfaceV{}
+				}
 			}
 		}
 		return fail(fmt.Sprintf("%T -> %s", in.V, tt.String()))
